@@ -881,6 +881,19 @@ class CppMachine:
         if k == 'constexpr_if':
             return self.exec(st, s.get('taken'))
         if k == 'decl':
+            if len(s['vars']) == 1 and (s['vars'][0].get('t') or {}).get('k') == 'ref' and s['vars'][0].get('init') is not None:
+                # `const T& r = c ? a : b;`: one state per outcome, the reference bound to the chosen object
+                v = s['vars'][0]
+                ini = v['init']
+                while isinstance(ini, dict) and ini.get('k') in ('cast', 'paren', 'bind', 'materialize') and isinstance(ini.get('e'), dict):
+                    ini = ini['e']
+                if isinstance(ini, dict) and ini.get('k') == 'cond':
+                    outs = []
+                    for (r, s2) in self.cond(st, ini['c']):
+                        o = self.lvalue(s2, ini['then'] if r else ini['else'])
+                        s2.fr.vars[v['id']] = ('obj', o[0], o[1])
+                        outs.append(s2)
+                    return outs
             if len(s['vars']) == 1 and (s['vars'][0].get('t') or {}).get('k') == 'bool' and s['vars'][0].get('init') is not None:
                 # a boolean local: one state per outcome of its initialiser
                 v = s['vars'][0]
@@ -2669,7 +2682,9 @@ def rule_inverse_step(ctx, cfg, prog, rule='R-WORDALG/c++'):
         ob = outer['body']['body'] if outer['body'].get('k') == 'compound' else [outer['body']]
         inner = [s for s in ob if s.get('k') == 'while']
         ifs = [s for s in ob if s.get('k') == 'if']
-        tail = [s for s in body[body.index(outer) + 1:] if s.get('k') == 'if']
+        # what follows the loop selects the result (an if / else, or a reference bound by `?:` and a copy): executed as it is
+        tail_stmts = [s for s in body[body.index(outer) + 1:] if s.get('k') not in ('null',)]
+        tail = [{'k': 'compound', 'l': (tail_stmts[0].get('l') if tail_stmts else None), 'body': tail_stmts}] if tail_stmts else []
         if len(inner) != 2 or len(ifs) != 1 or len(tail) != 1 or len(ob) != 3:
             raise bm.AnalysisBroken('%s: the loop body is not two halving loops and one subtraction step (restructured: no verdict)' % f['qn'])
         pt = (f['params'][0]['t'].get('pointee') or {})
